@@ -26,9 +26,18 @@ type c11Case struct {
 	RemovedInst []string `json:"removed_from_instance"`
 	// More: facts of further FetchMatchingRules calls made on the same instance
 	More []*facts.State `json:"facts_of_further_calls_on_the_same_instance,omitempty"`
+	// SameDC: the further calls re-use the first call's data context; between the calls the application
+	// overwrites the Go fact in place with the next facts (nested pointers, slices and maps are replaced)
+	SameDC bool `json:"further_calls_on_the_same_data_context,omitempty"`
 }
 
-func c11Run(c *val.Case, removedLib, removedInst []string, more ...*facts.State) ([]string, map[string]interface{}, error) {
+// c11Ctx carries the live facts and data context of a call to the next one.
+type c11Ctx struct {
+	live *facts.State
+	dc   ast.IDataContext
+}
+
+func c11Run(c *val.Case, removedLib, removedInst []string, sameDC bool, more ...*facts.State) ([]string, map[string]interface{}, error) {
 	prep, err := val.Prepare(c)
 	if err != nil {
 		return nil, nil, err
@@ -43,7 +52,8 @@ func c11Run(c *val.Case, removedLib, removedInst []string, more ...*facts.State)
 	for _, n := range removedInst {
 		kb.RemoveRuleEntry(n)
 	}
-	v, info, err := c11RunOn(c, prep, kb, removedLib, removedInst)
+	cx := &c11Ctx{}
+	v, info, err := c11RunOnCtx(c, prep, kb, removedLib, removedInst, cx)
 	if err != nil || len(v) > 0 {
 		return v, info, err
 	}
@@ -51,7 +61,19 @@ func c11Run(c *val.Case, removedLib, removedInst []string, more ...*facts.State)
 	for i, st := range more {
 		c2 := *c
 		c2.Init = st
-		v2, _, err2 := c11RunOn(&c2, prep, kb, removedLib, removedInst)
+		next := &c11Ctx{}
+		if sameDC && cx.live != nil {
+			// the application overwrites its fact object in place and calls again with the same data context
+			for name, lf := range cx.live.Go {
+				if nf := st.Go[name]; nf != nil && lf != nil {
+					pr := lf.GetProbe()
+					*lf = *facts.CopyFact(nf)
+					lf.SetProbe(pr)
+				}
+			}
+			next = cx
+		}
+		v2, _, err2 := c11RunOnCtx(&c2, prep, kb, removedLib, removedInst, next)
 		if err2 != nil {
 			return nil, info, err2
 		}
@@ -67,21 +89,38 @@ func c11Run(c *val.Case, removedLib, removedInst []string, more ...*facts.State)
 
 // c11RunOn checks one FetchMatchingRules call on the given instance.
 func c11RunOn(c *val.Case, prep *val.Prepared, kb *ast.KnowledgeBase, removedLib, removedInst []string) ([]string, map[string]interface{}, error) {
+	return c11RunOnCtx(c, prep, kb, removedLib, removedInst, &c11Ctx{})
+}
+
+// c11RunOnCtx is c11RunOn on the live facts and data context of cx when it holds them (otherwise they are made
+// from c.Init and left in cx).
+func c11RunOnCtx(c *val.Case, prep *val.Prepared, kb *ast.KnowledgeBase, removedLib, removedInst []string, cx *c11Ctx) ([]string, map[string]interface{}, error) {
 	var err error
 	removed := map[string]bool{}
 	for _, n := range append(append([]string{}, removedLib...), removedInst...) {
 		removed[n] = true
 	}
-	live := c.Init.Copy()
+	live, dc := cx.live, cx.dc
 	probe := &facts.Probe{}
+	if live == nil || dc == nil {
+		live = c.Init.Copy()
+		dc, err = obs.NewDataContext(live)
+		if err != nil {
+			return nil, nil, err
+		}
+		cx.live, cx.dc = live, dc
+	}
 	for _, f := range live.Go {
 		f.SetProbe(probe)
 	}
-	dc, err := obs.NewDataContext(live)
+	before := obs.Capture(live, dc)
+	// the expectation is taken on a copy of the facts in a data context of its own: whatever the data context
+	// under test remembers about the fact objects cannot leak into it
+	expSt := before.Copy()
+	expDC, err := obs.NewDataContext(expSt)
 	if err != nil {
 		return nil, nil, err
 	}
-	before := obs.Capture(live, dc)
 	// expectation from fresh single-rule engines
 	want := map[string]bool{}
 	failing := map[string]bool{}
@@ -89,7 +128,7 @@ func c11RunOn(c *val.Case, prep *val.Prepared, kb *ast.KnowledgeBase, removedLib
 		if removed[r.Name] {
 			continue
 		}
-		tr, terr := prep.Solo.Truth(r.Name, live, dc)
+		tr, terr := prep.Solo.Truth(r.Name, expSt, expDC)
 		// "fails to evaluate" is also decided by the reference interpreter: a fresh engine shares the
 		// evaluator with the engine under test and would hide a failure that is swallowed there
 		_, rerr := ref.New(before.Copy()).Eval(r.When)
@@ -244,7 +283,11 @@ func TestC11(t *testing.T) {
 				remInst = append(remInst, n)
 			}
 		}
-		v, info, err := c11Run(c, remLib, remInst, more...)
+		sameDC := len(more) > 0 && rapid.Bool().Draw(rt, "further_calls_same_data_context")
+		if sameDC {
+			labels = append(labels, "further_calls_on_the_same_data_context")
+		}
+		v, info, err := c11Run(c, remLib, remInst, sameDC, more...)
 		if err != nil {
 			rt.Fatalf("harness: %v\n%s", err, c.Text)
 		}
@@ -272,7 +315,7 @@ func TestC11(t *testing.T) {
 		}
 		if len(v) > 0 {
 			msg := strings.Join(v, "\n") + "\n--- rules ---\n" + gast.RulesString(c.Rules) + fmt.Sprintf("%v", info)
-			path := col.Violation("C11", "C11/"+firstWords(v[0]), msg, c11Case{Run: toRSCase(c), RemovedLib: remLib, RemovedInst: remInst, More: more})
+			path := col.Violation("C11", "C11/"+firstWords(v[0]), msg, c11Case{Run: toRSCase(c), RemovedLib: remLib, RemovedInst: remInst, More: more, SameDC: sameDC})
 			rt.Fatalf("C11 violated: %s (replay %s)", msg, path)
 		}
 	})
@@ -289,7 +332,7 @@ func init() {
 			return err
 		}
 		for i := 0; i < 16; i++ {
-			v, _, err := c11Run(c, cc.RemovedLib, cc.RemovedInst, cc.More...)
+			v, _, err := c11Run(c, cc.RemovedLib, cc.RemovedInst, cc.SameDC, cc.More...)
 			if err != nil {
 				return err
 			}
